@@ -427,10 +427,10 @@ func TestNestedResults(t *testing.T) {
 
 // ---- functions wrapping extensions with state of their own (the image store) ------------------------------
 
-// Only the extensions flagged DontCache are wrapped: image.new, image.set, image.set_ycbcr, image.set_hsl, image.png
-// (image.save writes a file and is not used). The path functions (image.move_to, line_to, close_path, draw*, add,
-// cube_to, quad_to) are NOT flagged in the code under test, so a function wrapping them is remembered and its second
-// equal call does nothing - reported as a finding of its own, and the reason why they are only called directly here.
+// Wrapped: the pixel functions image.new, image.set, image.set_ycbcr, image.set_hsl, image.png (image.save writes a file
+// and is not used) and the path functions image.move_to, line_to, quad_to, cube_to, close_path, draw*, add. (The path
+// functions were not flagged as uncacheable: a function wrapping them was remembered and its second equal call drew
+// nothing - found by this family, repaired in grol, regress/C04/fixed-image-path-functions.json.)
 type wrapper struct {
 	name string
 	def  string
@@ -454,6 +454,13 @@ var wrappers = []wrapper{
 	{name: "outer", def: `outer = name => [snap(name), 1]`, args: [][]string{imgNames}, need: "snap"},
 	{name: "paint2", def: `func paint2(name, v) { paint(name, 0, 0, v); paint(name, 1, 0, v); v }`, args: [][]string{imgNames, {"0", "10", "200"}}, need: "paint"},
 	{name: "missing", def: `missing = name => catch(image.png(name)).err`, args: [][]string{{`"a"`, `"never-created"`}}},
+	{name: "tri", def: `tri = func(name, x) { image.move_to(name, 0.0, 0.0); image.line_to(name, x, 0.0); image.line_to(name, 0.0, x); image.close_path(name); 1 }`, args: [][]string{imgNames, {"2.0", "3.0"}}},
+	{name: "fill", def: `func fill(name, v) { image.draw(name, [v, 0, 0]) }`, args: [][]string{imgNames, {"0", "10", "255"}}},
+	{name: "fillh", def: `fillh = (name, h) => image.draw_hsl(name, [h, 0.5, 0.5])`, args: [][]string{imgNames, {"0.0", "0.5"}}},
+	{name: "filly", def: `filly = (name, v) => image.draw_ycbcr(name, [v, 128, 128])`, args: [][]string{imgNames, {"16", "235"}}},
+	{name: "curve", def: `func curve(name, x) { image.move_to(name, 0.0, 0.0); image.quad_to(name, x, 0.0, x, x); image.cube_to(name, 0.0, x, 0.0, 1.0, 0.0, 0.0); name }`, args: [][]string{imgNames, {"2.0", "3.0"}}},
+	{name: "blend", def: `blend = (p, q) => image.add(p, q)`, args: [][]string{imgNames, imgNames}},
+	{name: "stamp", def: `func stamp(name, v) { tri(name, 3.0); fill(name, v); base64(image.png(name)) }`, args: [][]string{imgNames, {"10", "255"}}, need: "tri"},
 }
 
 func genImages(t *rapid.T) (Case, bool) {
@@ -545,7 +552,7 @@ func genImages(t *rapid.T) (Case, bool) {
 }
 
 func TestImageWrappers(t *testing.T) {
-	pbt.Check(t, 250, 40000, func(rt *rapid.T) {
+	pbt.Check(t, 150, 15000, func(rt *rapid.T) { // (every image.png allocates a compressor: the dearest cases of the package)
 		c, nonTrivial := genImages(rt)
 		if _, err := check(c); err != nil {
 			pbt.Fail(rt, "image-wrapper", c, "%v", err)
